@@ -27,7 +27,11 @@ func main() {
 	tier := flag.String("tier", "", "quick or thorough (default: $VERIF_TIER or quick)")
 	explain := flag.String("explain", "", "violations file to pretty-print")
 	list := flag.Bool("list", false, "list implemented properties")
+	viewOf := flag.String("view", "", "debug: print the inlined view of rel:Type.method (or rel:func); 'ALL' self-tests every module function")
 	flag.Parse()
+	if *viewOf != "" {
+		os.Exit(debugView(*viewOf))
+	}
 	if *list {
 		var ids []string
 		for id := range props {
